@@ -52,6 +52,21 @@ def objFuncLinGen (val : C03.Val) (isPath : Bool) (goal goalLate : C03.Goal × N
     (nActive nActiveLate : Nat → Rat) (mLate : Nat) : C03.Closure :=
   fun m i => if isPath then ((List.range epsilon.size).map fun c => ((goal.1.weight * (C03.readVariable val epsilon m i c)) / (nActive c))) else ((List.range epsilon.size).map fun c => ((goal.1.weight * (C03.readExtra val epsilon m c)) / (nActive c)))
 
+/-- the divisors are the model's `Goal.nActive` (the quantity `C03_n_active_counts` is about) -/
+theorem nActiveGen_eq_model (sbs isPath : Bool) (T : Nat) (g : C03.Goal) (c : Nat) :
+    (g.hasBounds = true → nActiveTargetGen sbs isPath T g c = g.nActive sbs isPath T c)
+    ∧ (g.hasBounds = true → nActiveLinGen sbs isPath T g c = g.linearized.nActive sbs isPath T c)
+    ∧ (g.hasBounds = false → nActiveMinGen sbs isPath T g c = g.nActive sbs isPath T c) := by
+  refine ⟨fun hb => ?_, fun hb => ?_, fun hb => ?_⟩
+  · cases isPath <;> cases sbs <;>
+      simp [nActiveTargetGen, C03.Goal.nActive, C03.Goal.activeCount, C03.Goal.activeAt, hb, Bool.or_comm, Nat.max_comm]
+  · have hb' : g.linearized.hasBounds = true := hb
+    cases isPath <;> cases sbs <;>
+      simp [nActiveLinGen, C03.Goal.nActive, C03.Goal.activeCount, C03.Goal.activeAt, hb', Bool.or_comm, Nat.max_comm] <;>
+      simp [C03.Goal.linearized]
+  · cases isPath <;> cases sbs <;>
+      simp [nActiveMinGen, C03.Goal.nActive, hb, Nat.max_comm]
+
 theorem objFuncTargetGen_eq_model (sbs isPath : Bool) (T : Nat) (val : C03.Val) (symIndex : Nat)
     (gj : C03.Goal × Nat) (gjLate : C03.Goal × Nat) (epsLate : C03.EpsSym) (nLate : Nat → Rat) (mLate : Nat)
     (hc : gj.1.critical = false) (hb : gj.1.hasBounds = true) :
@@ -60,8 +75,9 @@ theorem objFuncTargetGen_eq_model (sbs isPath : Bool) (T : Nat) (val : C03.Val) 
       = C03.closureOf sbs isPath T val gj := by
   funext m i
   cases isPath <;> cases sbs <;>
-    simp [objFuncTargetGen, epsSymGen, nActiveTargetGen, C03.closureOf, C03.objVec, C03.base, C03.Goal.nActive,
-      C03.Goal.activeCount, C03.Goal.activeAt, C03.readVariable, C03.readExtra, C03.readFunction, hc, hb]
+    (simp [objFuncTargetGen, epsSymGen, nActiveTargetGen, C03.closureOf, C03.objVec, C03.base, C03.Goal.nActive,
+      C03.Goal.activeCount, C03.Goal.activeAt, C03.readVariable, C03.readExtra, C03.readFunction, hc, hb,
+      Bool.or_comm, Nat.max_comm] <;> intros <;> ring)
 
 theorem objFuncMinGen_eq_model (sbs isPath : Bool) (T : Nat) (val : C03.Val)
     (gj : C03.Goal × Nat) (gjLate : C03.Goal × Nat) (epsLate : C03.EpsSym) (nLate : Nat → Rat) (mLate : Nat)
@@ -70,8 +86,8 @@ theorem objFuncMinGen_eq_model (sbs isPath : Bool) (T : Nat) (val : C03.Val)
       = C03.closureOf sbs isPath T val gj := by
   funext m i
   cases isPath <;> cases sbs <;>
-    simp [objFuncMinGen, nActiveMinGen, C03.closureOf, C03.objVec, C03.base, C03.Goal.nActive,
-      C03.readVariable, C03.readExtra, C03.readFunction, hc, hb]
+    (simp [objFuncMinGen, nActiveMinGen, C03.closureOf, C03.objVec, C03.base, C03.Goal.nActive,
+      C03.readVariable, C03.readExtra, C03.readFunction, hc, hb, Nat.max_comm] <;> intros <;> ring)
 
 /-- the closure of the linearising mixin is the objective function of the same goal with exponent 1 (on the linear
     majorant variable), same weight and same divisor -/
@@ -85,9 +101,10 @@ theorem objFuncLinGen_eq_model (sbs isPath : Bool) (T : Nat) (val : C03.Val) (sy
   have hb' : gj.1.linearized.hasBounds = true := hb
   funext m i
   cases isPath <;> cases sbs <;>
-    simp [objFuncLinGen, linSymGen, nActiveLinGen, C03.closureOf, C03.objVec, C03.base, C03.Goal.nActive,
-      C03.Goal.activeCount, C03.Goal.activeAt, C03.readVariable, C03.readExtra, C03.readFunction, hc', hb'] <;>
-    simp [C03.Goal.linearized]
+    (simp [objFuncLinGen, linSymGen, nActiveLinGen, C03.closureOf, C03.objVec, C03.base, C03.Goal.nActive,
+      C03.Goal.activeCount, C03.Goal.activeAt, C03.readVariable, C03.readExtra, C03.readFunction, hc', hb',
+      Bool.or_comm, Nat.max_comm] <;>
+    simp [C03.Goal.linearized, Bool.or_comm, Nat.max_comm] <;> intros <;> ring)
 
 /-- loop body of `_gp_goal_constraints`: what goal `gj` appends to `objectives` (`override gj` = the attribute
     `goal._objective_func` if the goal has one) -/
@@ -215,7 +232,7 @@ theorem objectivesGen_linearizedMixin (sbs isPath : Bool) (T : Nat) (val : C03.V
     funext gj
     unfold linOverrideGen
     rw [linearizeGoalGen_eq_model]
-    cases C03.isLinearized optLin (gl gj) gj.1 <;> rfl
+    cases hl : C03.isLinearized optLin (gl gj) gj.1 <;> simp [hl]
   rw [h]
   exact objectivesGen_linearized sbs isPath T val symIndex gjLate epsLate nLate mLate
     (fun gj => C03.isLinearized optLin (gl gj) gj.1) goals hlin
@@ -299,6 +316,28 @@ theorem gpNObjectives_chain (sbs : Bool) (T : Nat) (val : C03.Val) (symIndex : N
     C03.closures_eq_map, C03.closures_eq_map]
   unfold gpNObjectivesGen
   simp only [List.flatMap_map]
+  rfl
+
+/-- **whole chain**: closures read from `_gp_goal_constraints`, handed over by the translated callers, evaluated by the
+    translated `_gp_n_objectives` / `_gp_objective` (once) / `_gp_path_objective` (every time step), weighted with the
+    member probabilities: the documented objective of the priority -/
+theorem documented_chain (sbs : Bool) (T : Nat) (probs : List Rat) (val : C03.Val) (symIndex : Nat)
+    (gjLate : C03.Goal × Nat) (epsLate : C03.EpsSym) (nLate : Nat → Rat) (mLate : Nat) (goals pathGoals : List C03.Goal) :
+    (probs.zipIdx.map fun pm =>
+      pm.1 * (gpObjectiveGen sbs (fun o : C03.Closure => o pm.2 0)
+          (subproblemObjectivesGen sbs T val symIndex (fun _ => none) gjLate epsLate nLate mLate goals pathGoals)
+          (gpNObjectivesGen (fun o : C03.Closure => o pm.2 0) (fun o : C03.Closure => o pm.2 0)
+            (subproblemObjectivesGen sbs T val symIndex (fun _ => none) gjLate epsLate nLate mLate goals pathGoals)
+            (subproblemPathObjectivesGen sbs T val symIndex (fun _ => none) gjLate epsLate nLate mLate goals pathGoals))
+        + ((List.range T).map fun i => gpPathObjectiveGen sbs (fun o : C03.Closure => o pm.2 i)
+          (subproblemPathObjectivesGen sbs T val symIndex (fun _ => none) gjLate epsLate nLate mLate goals pathGoals)
+          (gpNObjectivesGen (fun o : C03.Closure => o pm.2 0) (fun o : C03.Closure => o pm.2 0)
+            (subproblemObjectivesGen sbs T val symIndex (fun _ => none) gjLate epsLate nLate mLate goals pathGoals)
+            (subproblemPathObjectivesGen sbs T val symIndex (fun _ => none) gjLate epsLate nLate mLate goals
+              pathGoals))).sum)).sum
+      = C03.documented sbs T probs val goals pathGoals := by
+  rw [← C03.objective_eq_documented]
+  simp only [gpNObjectives_chain, gpObjective_chain, gpPathObjective_chain]
   rfl
 
 /-- non-vacuity: two goals (a size-2 path target goal whose second component is never active, a path minimisation
